@@ -36,16 +36,17 @@ def plan(tier, seed):
     q = tier == "quick"
     mult = 1 if q else 30
     shards = [{"kind": "fixed"}]
-    for i in range(3 if q else 12):
+    for i in range(3 if q else 32):
         shards.append({"kind": "mut", "n": 7000 * (1 if q else 8)})
-    for i in range(3 if q else 8):
-        shards.append({"kind": "opm", "per": 26 if q else 300, "part": i, "parts": 3 if q else 8})
-    for i in range(5 if q else 16):
+    for i in range(3 if q else 16):
+        shards.append({"kind": "opm", "per": 26 if q else 450, "part": i, "parts": 3 if q else 16})
+    for i in range(5 if q else 40):
         shards.append({"kind": "p2pk", "n": 800 if q else 9000})
-    for i in range(2 if q else 10):
+    for i in range(2 if q else 24):
         shards.append({"kind": "multisig", "n": 220 if q else 2500})
-    shards.append({"kind": "lock_rand", "n_lock": 4000 * mult, "n_rand": 6000 * mult})
-    shards.append({"kind": "lock_rand", "n_lock": 1000 * mult, "n_rand": 9000 * mult})
+    for i in range(1 if q else 4):
+        shards.append({"kind": "lock_rand", "n_lock": 4000 * mult, "n_rand": 6000 * mult})
+        shards.append({"kind": "lock_rand", "n_lock": 1000 * mult, "n_rand": 9000 * mult})
     shards.append({"kind": "suite", "label": "suite"})
     return shards
 
